@@ -761,6 +761,34 @@ pub fn run_c06(opts: &Opts, out: &mut Emitter) {
             v
         });
     }
+    // names the source of the crates itself mentions (whatever a stage has come to treat specially by name): a value
+    // parameter and an input block under each of them, as it is, as a prefix and as a suffix
+    for (k, lit) in crate::common::magic_names().iter().enumerate() {
+        use tx3_tir::model::core::Type;
+        let name = match k % 3 {
+            0 => lit.clone(),
+            1 => format!("{lit}_x"),
+            _ => format!("x_{lit}"),
+        };
+        let q = tir::InputQuery {
+            address: tir::Expression::Address(ADDR_A.to_vec()),
+            min_amount: tir::Expression::Assets(vec![tir::AssetExpr { policy: tir::Expression::None, asset_name: tir::Expression::None, amount: param(&name, Type::Int) }]),
+            r#ref: tir::Expression::None,
+            many: false,
+            collateral: false,
+        };
+        let mut t = empty_tx();
+        t.fees = fees_param();
+        t.inputs.push(tir::Input { name: name.clone(), utxos: input_param(&name, q), redeemer: param(&name, Type::Int) });
+        t.outputs.push(tir::Output { address: tir::Expression::None, datum: param(&name, Type::Int), amount: ada(2_000_000), optional: false });
+        let mut case = complete_case(&mut g, t);
+        case.args.insert(name.clone(), ArgValue::Int(3));
+        out.case("named-sweep", || {
+            let mut v = case_json(&case, observe(&case, false, None));
+            v["label"] = json!(name);
+            v
+        });
+    }
     // random templates
     for k in 0..opts.n {
         g.param_rate = 3 + (k as u64 % 6);
